@@ -131,7 +131,7 @@ def run(ctx):
                 'completed (envelopes existed at iterate 0)' % (4 if ctx.quick() else 5))
     # the translation tie: the control skeletons of get_next_imf / sift / mask_sift are regenerated from the source and the
     # refinement theorems to the models used by this property's theorems are re-checked
-    ctx.proof(extra=['props/Prop_Tie_Sift.v'])
+    ctx.proof(extra=['props/Prop_Tie_Sift.v', 'props/Prop_Tie_Stops.v'])
     bad = []
     # ---- (1) scripted, exhaustive
     depth = 4 if ctx.quick() else 5
